@@ -7,6 +7,8 @@ from props.c09 import classify
 
 from common import iter_pipeline, closure_tree
 
+from common import field_assigns
+
 PROP = "C11"
 LEVEL = "other"
 UNDECIDED = [
@@ -499,8 +501,38 @@ def rule_keep_alive(ctx):
     rs = get_fn(facts, "nucleo", "Nucleo::<T>::restart")
     asg = [(bi, si, s) for bi, si, s in rs.stmts(lambda s: s["k"] == "assign" and s["lhs"]["p"] and s["lhs"]["p"][-1] != "deref" and isinstance(s["lhs"]["p"][-1], dict) and s["lhs"]["p"][-1].get("name") == "items")]
     dr = [bi for bi in sorted(rs.live) if rs.blocks[bi]["term"]["k"] == "drop" and rs.blocks[bi]["term"]["place"]["p"] and isinstance(rs.blocks[bi]["term"]["place"]["p"][-1], dict) and rs.blocks[bi]["term"]["place"]["p"][-1].get("name") == "items"]
+    # or: `let old = mem::replace(&mut self.items, new); drop(old)` — the old handle is the call's result and is
+    # dropped (explicit drop(..) or scope end), never forgotten
+    rep = [(bi, si, s_) for bi, si, s_ in field_assigns(rs, "items", "Nucleo<") if si == "replace"]
+    rep_ok = False
+    for bi, si, s_ in rep:
+        t_ = rs.blocks[bi]["term"]
+        d_ = t_["dest"]
+        if d_["p"]:
+            continue
+        # the returned old handle must reach a drop (drop terminator or a call of mem::drop) on every path to return
+        sinks = [b2 for b2 in sorted(rs.live) if rs.blocks[b2]["term"]["k"] == "drop"] + \
+                [b2 for b2, t2 in rs.calls(lambda t: callee(t).endswith("mem::drop"))]
+        holders = {d_["l"]}
+        for b2, si2, s2 in rs.stmts(lambda s: s["k"] == "assign" and "use" in s["rv"]):
+            p2 = s2["rv"]["use"].get("move") or s2["rv"]["use"].get("copy")
+            if p2 is not None and not p2["p"] and p2["l"] in holders and not s2["lhs"]["p"]:
+                holders.add(s2["lhs"]["l"])
+        dropped = []
+        for b2 in sinks:
+            t2 = rs.blocks[b2]["term"]
+            if t2["k"] == "drop" and not t2["place"]["p"] and t2["place"]["l"] in holders:
+                dropped.append(b2)
+            if t2["k"] == "call":
+                a2 = t2["args"][0].get("move") if t2["args"] else None
+                if a2 is not None and not a2["p"] and a2["l"] in holders:
+                    dropped.append(b2)
+        if dropped and t_["target"] is not None and rs.all_paths_to_return_pass(t_["target"], via_nodes=dropped):
+            rep_ok = True
     if asg and dr:
         ctx.ok(site(rs, asg[0][0], asg[0][1]), "restart drops the old stream handle and assigns the new one")
+    elif rep_ok:
+        ctx.ok(site(rs, rep[0][0]), "restart swaps in the new stream with mem::replace and drops the old handle on every path")
     else:
         ctx.violation("Nucleo::<T>::restart|replace|1", site(rs, 0), "restart does not replace self.items by assignment (old handle dropped)")
 
